@@ -585,4 +585,63 @@ LeafPaths(S, p) ==
     UNION {LET k == S.fields[i][1]  f == S.fields[i][2] IN
            IF IsSchema(f) THEN {<<p, k>>} \cup LeafPaths(f, Append(p, k))
            ELSE IF f.kind = "virtual" THEN {} ELSE {<<p, k>>} : i \in DOMAIN S.fields}
+
+(* What a document format does to a plain tree on the way out and back in.  The formats are a
+   typed channel (their fidelity is C04's subject, CincoFormats.tla) with two observable
+   effects: YAML writes the keys of every map in sorted order, and XML can only carry maps whose
+   keys are XML names (C04's stated domain) and strings of XML characters without CR. *)
+RECURSIVE StrLess(_, _)
+StrLess(a, b) == IF a = <<>> THEN b # <<>>
+                 ELSE IF b = <<>> THEN FALSE
+                 ELSE IF Head(a) = Head(b) THEN StrLess(Tail(a), Tail(b))
+                 ELSE CharCode[Head(a)] < CharCode[Head(b)]
+RECURSIVE InsertKV(_, _)
+InsertKV(sorted, p) == IF sorted = <<>> THEN <<p>>
+                       ELSE IF StrLess(p[1].s, Head(sorted)[1].s) THEN <<p>> \o sorted
+                       ELSE <<Head(sorted)>> \o InsertKV(Tail(sorted), p)
+RECURSIVE SortKV(_)
+SortKV(kv) == IF kv = <<>> THEN <<>> ELSE InsertKV(SortKV(SubSeq(kv, 1, Len(kv) - 1)), kv[Len(kv)])
+RECURSIVE YamlChannel(_)
+YamlChannel(t) == CASE t.t = "dict" -> DictV(SortKV([i \in DOMAIN t.kv |-> <<t.kv[i][1], YamlChannel(t.kv[i][2])>>]))
+                    [] t.t = "list" -> ListV([i \in DOMAIN t.l |-> YamlChannel(t.l[i])])
+                    [] OTHER        -> t
+XmlName(s) == /\ s # <<>> /\ s[1] \in AsciiLetters \cup {"_"}
+              /\ \A i \in 2..Len(s) : s[i] \in AsciiLetters \cup Digits \cup {"_", "-", "."}
+RECURSIVE XmlDomain(_)
+XmlDomain(t) == CASE t.t = "dict" -> \A i \in DOMAIN t.kv : t.kv[i][1].t = "str" /\ XmlName(t.kv[i][1].s) /\ XmlDomain(t.kv[i][2])
+                  [] t.t = "list" -> \A i \in DOMAIN t.l : XmlDomain(t.l[i])
+                  [] t.t = "str"  -> \A i \in DOMAIN t.s : t.s[i] \notin {"\r", "\f"}
+                  [] OTHER        -> TRUE
+RECURSIVE KeysEncodable(_)
+KeysEncodable(t) == CASE t.t = "dict" -> \A i \in DOMAIN t.kv : t.kv[i][1].t = "str" /\ Encodable(t.kv[i][1].s) /\ KeysEncodable(t.kv[i][2])
+                      [] t.t = "list" -> \A i \in DOMAIN t.l : KeysEncodable(t.l[i])
+                      [] OTHER        -> TRUE
+InFormatDomain(fmt, t) == IsPlain(t) /\ KeysEncodable(t) /\ (fmt = "xml" => XmlDomain(t))
+Channel(fmt, t) == IF fmt = "yaml" THEN YamlChannel(t) ELSE t
+
+(* C02: what "the same configuration after save and load" means *)
+\* persistent values equal, modulo the two stated normalisations: an unset typed list/dict
+\* may come back empty, an empty secret comes back unset
+RECURSIVE SameLeaf(_, _, _)
+SameLeaf(f, x, y) ==
+    \/ y = x
+    \/ IsNone(x) /\ f.kind = "list" /\ y = ListV(<<>>)
+    \/ IsNone(x) /\ f.kind = "dict" /\ y = DictV(<<>>)
+    \/ f.kind = "secure" /\ ~Truthy(x) /\ IsNone(y)
+    \/ /\ f.kind = "list" /\ f.item.kind # "nofield" /\ x.t = "list" /\ y.t = "list" /\ Len(x.l) = Len(y.l)
+       /\ \A j \in DOMAIN x.l : SameLeaf(f.item, x.l[j], y.l[j])
+    \/ /\ f.kind = "dict" /\ f.valf.kind # "nofield" /\ x.t = "dict" /\ y.t = "dict" /\ Len(x.kv) = Len(y.kv)
+       \* (maps are equal whatever the order of their entries)
+       /\ \A j \in DOMAIN x.kv : \E i \in DOMAIN y.kv : x.kv[j][1] = y.kv[i][1] /\ SameLeaf(f.valf, x.kv[j][2], y.kv[i][2])
+RECURSIVE SameVals(_, _, _)
+SameVals(Sx, a, b) ==
+    \A i \in DOMAIN Sx.fields :
+        LET k == Sx.fields[i][1]  f == Sx.fields[i][2] IN
+        f.kind = "virtual" \/
+        (k \in DOMAIN a.vals /\ k \in DOMAIN b.vals /\
+         LET x == a.vals[k]  y == b.vals[k] IN
+         IF IsCfg(x) THEN IsCfg(y) /\ SameVals(f, x, y)
+         ELSE IF f.kind = "list" /\ IsSchema(f.item) /\ x.t = "list" THEN
+              y.t = "list" /\ Len(y.l) = Len(x.l) /\ \A j \in DOMAIN x.l : SameVals(f.item, x.l[j], y.l[j])
+         ELSE SameLeaf(f, x, y))
 =============================================================================
